@@ -182,8 +182,9 @@ class Prop:
         'the family of a Reach/Unreach is one both sides announced, and the kind of every NLRI is the one of the family (what the export path builds)',
         'value attributes (ORIGIN, MED, LOCAL_PREF, ORIGINATOR_ID) carry their canonical flags (Attribute::new_with_value); the attribute list holds no '
         'NEXT_HOP / MP_REACH_NLRI (they are synthesised by the encoder)',
-        'next hops the oracle judges: IPv4 for the legacy IPv4 form; none for Flowspec; 4 octets only outside AFI 2; 16 or 32 octets otherwise '
-        '(an IPv4 next hop for an AFI 2 family has no RFC 4760 encoding: the code zero-pads it, unjudged)',
+        'next hops the oracle judges: IPv4 for the legacy IPv4 form; none for Flowspec; 4, 16 or 32 octets otherwise, an IPv4 next hop of an '
+        'AFI 2 family being expected as the IPv4-mapped IPv6 address; a Reach of a non-Flowspec family without next hop is unjudged '
+        '(the export path always supplies one; the code writes 16 zero octets)',
         'on a two-octet-AS session an AS_PATH holding both confederation segments and AS numbers above 65535 is compared modulo AS_PATH '
         '(RFC 6793 carries no confederation segments in AS4_PATH)',
     ]
